@@ -287,6 +287,22 @@ class _WriteAttr(object):
         return "_WriteAttr()"
 
 
+class _MissingStores(dict):
+    """a context of a dict subclass whose __missing__ stores what it returns (as collections.defaultdict does):
+    asking it for a key with [] changes it"""
+
+    def __missing__(self, key):
+        self[key] = {}
+        return self[key]
+
+
+class _MissingPhantom(dict):
+    """a context of a dict subclass whose __missing__ answers with a dictionary that is not stored"""
+
+    def __missing__(self, key):
+        return {"filetype": "csv", "to_csv": True, "template": "t.tex"}
+
+
 # unselected values every element must pass: bare numbers, strings, tuples, pairs with unrelated context, foreign objects
 COMMON_B = [
     ("int", lambda d: 3),
@@ -303,6 +319,12 @@ COMMON_B = [
     ("namedtuple_pair", lambda d: _NTPair(2.5, {"x": 1})),                   # a tuple subclass that is a (data, context) pair
     ("pair_ordereddict", lambda d: (2.5, collections.OrderedDict(a=1))),     # context of a dict subclass
     ("bytes", lambda d: b"raw bytes"),
+    # contexts of dict subclasses that define __missing__ ("a context is a dictionary or its subclass"): looking a
+    # key up with [] would insert it (the same object, but no longer unchanged) or invent a value
+    ("pair_defaultdict", lambda d: (2.5, collections.defaultdict(dict))),
+    ("pair_defaultdict_keys", lambda d: (Foreign("dd"), collections.defaultdict(dict, unrelated={"x": 1}))),
+    ("pair_missing_stores", lambda d: (2.5, _MissingStores(a=1))),
+    ("pair_missing_phantom", lambda d: (Foreign("ph"), _MissingPhantom(a=1))),
 ]
 # values that look like "nothing" (falsy data, empty containers, empty context)
 NOTHING_B = [
@@ -347,6 +369,7 @@ STR_B = [
 
 # configurations added by the clause-coverage audit: the quick tier runs a representative slice of their scenarios
 AUDIT_CONFIGS = ("Write_existing_unchanged", "LaTeXToPDF_fail", "LaTeXToPDF_mtime", "RenderLaTeX_callables",
+                 "RenderLaTeX_context_template", "RenderLaTeX_strict_callable",
                  "RenderLaTeX_from_data", "MapBins_two_results", "IterateBins_int_bins", "MapGroup_no_results",
                  "MapGroup_two_results", "RunIf_objects")
 
@@ -678,6 +701,23 @@ def element_specs():
                  ("render_false", lambda d: (1, {"render": False, "v": 4})),
                  ("render_truthy_not_true", lambda d: (1, {"render": 1, "v": 5}))],
         doc="RenderLaTeX with callable select_template and select_data"))
+    # no default template: the name comes from context.output.template, or from a callable that can only
+    # answer for the values it is meant for (both must be asked for selected values only)
+    tpl_a = [("csv_template", lambda d: ("f2.csv", {"output": {"filetype": "csv", "template": "t2.tex"}, "v": 2})),
+             ("csv_template_t", lambda d: ("f1.csv", {"output": {"filetype": "csv", "template": "t.tex"}, "v": 1})),
+             ("csv_hist_template", lambda d: (_H1(), {"output": {"filetype": "csv", "template": "t.tex"}, "v": 3}))]
+    out.append(ElementSpec(
+        "RenderLaTeX_context_template",
+        lambda d: lena.output.RenderLaTeX(template_dir=os.path.join(d, "templates")),
+        prepare=_prep_render, A=tpl_a, B=b.B,
+        doc="RenderLaTeX without a default template: context.output.template of the selected values names it"))
+    out.append(ElementSpec(
+        "RenderLaTeX_strict_callable",
+        lambda d: lena.output.RenderLaTeX(select_template=lambda val: val[1]["output"]["template"],
+                                          template_dir=os.path.join(d, "templates")),
+        prepare=_prep_render, A=tpl_a, B=b.B,
+        doc="RenderLaTeX with a callable select_template that can answer only for (data, context) pairs with "
+            "output.template"))
     out.append(ElementSpec(
         "RenderLaTeX_from_data",
         lambda d: lena.output.RenderLaTeX("t2.tex", template_dir=os.path.join(d, "templates"), from_data=True),
